@@ -71,7 +71,7 @@ def cases(rng, tier, X):
                 ops.append('rx 1 %s zero' % f)
         out.append(('r%d' % k, ops))
     # universal traffic (every frame type / sender / path / service / boundary value, 1..3 interfaces): this check's predicate on it
-    for k in range(60 if tier == 'quick' else 6000):
+    for k in range(150 if tier == 'quick' else 6000):
         out.append(('u%d' % k, F.universal(rng)))
     return out
 
